@@ -179,18 +179,18 @@ def lean_stage(prop, targets, tier):
 
 # ------------------------------------------------------------------ Go drivers
 
-def build_driver(name, tags=("verif",), overlay=None, race=False):
+def build_driver(name, tags=("verif",), overlay=None, race=False, suffix=""):
     """Builds harness/drivers/<name> against /repo (replace => /repo; overlay files are added
     to gnet packages through `go build -overlay`, nothing is written into /repo)."""
     h = os.path.join(VERIF, "harness")
     shutil.copyfile(os.path.join(REPO, "go.sum"), os.path.join(h, "go.sum"))
-    out = os.path.join(BIN, "drv-" + name + ("-" + "-".join(t for t in tags if t != "verif") if len(tags) > 1 else ""))
+    out = os.path.join(BIN, "drv-" + name + ("-" + "-".join(t for t in tags if t != "verif") if len(tags) > 1 else "") + suffix)
     cmd = ["go", "build", "-tags", ",".join(tags), "-o", out]
     if race:
         cmd.append("-race")
     if overlay:
-        ov = {"Replace": {os.path.join(REPO, dst): os.path.join(VERIF, "harness", "overlay", src) for dst, src in overlay.items()}}
-        ovf = os.path.join(BIN, "overlay-%s.json" % name)
+        ov = {"Replace": {os.path.join(REPO, dst): (src if os.path.isabs(src) else os.path.join(VERIF, "harness", "overlay", src)) for dst, src in overlay.items()}}
+        ovf = os.path.join(BIN, "overlay-%s%s.json" % (name, suffix))
         with open(ovf, "w") as f:
             json.dump(ov, f)
         cmd += ["-overlay", ovf]
